@@ -584,12 +584,11 @@ func c13Process(c *fw.Ctx) {
 func runC13(c *fw.Ctx) {
 	c13Fails(c)
 	scs := c13Scenarios(c)
-	for i, sc := range scs {
-		if i%c.Of != c.Shard%len(scs) || c.Shard >= len(scs) {
-			continue
-		}
+	for _, sc := range scs {
 		ExploreScenario(c, "C13", sc)
-		c.Sample(4, map[string]any{"scenario": sc.Name, "preemption_bound": sc.Bound, "coverage": c.R.Bounds["scenario:"+sc.Name]})
+		if c.Shard == 0 {
+			c.Sample(4, map[string]any{"scenario": sc.Name, "preemption_bound": sc.Bound, "coverage": c.R.Bounds["scenario:"+sc.Name]})
+		}
 	}
 	if c.Shard == c.Of-1 {
 		c13Process(c)
@@ -625,6 +624,9 @@ func racePassChild(args []string) {
 		reps := 30
 		if len(sc.Name) > 2 && sc.Name[:2] == "F-" {
 			reps = 200 // cheap: shared-handle fetches
+		}
+		if sc.Name == "F-long-windows" {
+			reps = 40
 		}
 		if strings.Contains(sc.Name, "-bad-") || strings.Contains(sc.Name, "-oor") {
 			reps = 300 // failing requests return at once: many repetitions to overlap them
